@@ -190,6 +190,10 @@ def obligations(tier):
     for encs, nl in [((0, 8, 0), (3, 2, 3)), ((0, 2, 0), (2, 3, 2)), ((8, 0, 8), (2, 3, 2)), ((2, 0, 2), (3, 2, 3))]:
         o.append(shape(t=1, s=0, nlv=nl, enc=encs, nd=3, ibw=2, fork_max=2, openm=3, batch=-3))
         o.append(shape(t=2 if encs[0] else 5, s=1, nlv=nl, sym=0x1 if q else 0x5, enc=encs, nd=3, ibw=2, fork_max=2, openm=3, batch=-4))
+    # dictionary page + compression + CRC on every page, buffer | mmap and stdio (the dictionary loaders verify the checksum over the COMPRESSED bytes;
+    # added after seeded C03-dict-crc-uncompressed-size)
+    o.append(shape(t=1, s=1, nlv=(3,), sym=0x1, enc=8, nd=3, ibw=2, codec=1, crc=2, openm=3))
+    o.append(shape(t=2, s=0, nlv=(3,), enc=2, nd=2, ibw=1, codec=7, crc=2, openm=1))
     # BYTE_ARRAY chunks that fall back from dictionary to PLAIN pages (the parquet-mr pattern) with the page bytes in a heap buffer
     # (stdio, or a compressed chunk via buffer/mmap): the returned byte arrays must stay readable until the next read call
     # (added after seeded C06-bytearray-dict-plain-retention)
